@@ -200,7 +200,8 @@ def cli_cases(res, drv, d):
     exp, _ = expected_public(key)
     variants = [[], ["--columns-count", "1"], ["--columns-count", "12", "--indentation-count", "2"], ["--array-name", "root_public_key", "--length-name", "root_len"],
                 ["--array-type", "unsigned char", "--length-type", "unsigned int", "--no-const"], ["--indentation-tab", "--indentation-count", "1"], ["--no-length"],
-                ["--columns-count", "200"]]
+                ["--columns-count", "200"], ["--indentation-count", "0"], ["--indentation-tab", "--indentation-count", "0", "--columns-count", "3"],
+                ["--indentation-count", "16", "--columns-count", "64"]]          # the borders of the layout options, as the command line reads them (C15-r)
 
     def conv(k):
         out = os.path.join(d, f"cli_conv{k}.c")
